@@ -2,7 +2,7 @@
    list, prod, unit, sumbool map to OCaml's; Z/positive/N/nat stay inductive.
    No Extract Constant. *)
 From Coq Require Import Extraction ExtrOcamlBasic ZArith List.
-From Corro Require Import Gen.Consts Lib.Ivl Model.Chunk Model.Book Model.SeqRows Model.BookOps Model.Needs Model.Members Lib.Utf8 Model.Pack Model.Wire Model.WireDescs Model.Ingest Model.IngestSched Model.ClusterGate Model.Partial Model.Serve Model.LocalTx Model.Crdt Model.CrdtSpec Model.Ivm Model.Updates Model.SchemaDiff Model.Authz Gen.Router Model.Catchup Gen.CatchupCfg Model.SubLife Gen.SubLifeCfg Model.Backup Model.RestoreLock Gen.RestoreLocks Model.WritePool.
+From Corro Require Import Gen.Consts Lib.Ivl Model.Chunk Model.Book Model.SeqRows Model.BookOps Model.Needs Model.Members Lib.Utf8 Model.Pack Model.Wire Model.WireDescs Model.Ingest Model.IngestSched Model.ClusterGate Model.Partial Model.Serve Model.LocalTx Model.Crdt Model.CrdtSpec Model.Cluster Model.Ivm Model.Updates Model.SchemaDiff Model.Authz Gen.Router Model.Catchup Gen.CatchupCfg Model.SubLife Gen.SubLifeCfg Model.Backup Model.RestoreLock Gen.RestoreLocks Model.WritePool.
 Extraction Language OCaml.
 Extraction "model.ml"
   Z.add Z.mul Z.sub Z.opp Z.div_eucl Z.of_nat Z.to_nat Z.compare Z.eqb Z.ltb Z.leb
@@ -24,6 +24,7 @@ Extraction "model.ml"
   LocalTx.lruns LocalTx.lst_init
   Crdt.merge Crdt.merge_all Crdt.table Crdt.versions
   CrdtSpec.row_spec CrdtSpec.wf_row CrdtSpec.on_row
+  Cluster.no_tie Cluster.clk_unique Cluster.crun Cluster.all_recs Cluster.knows_all
   Ivm.eval Ivm.m_init Ivm.handle_candidates Ivm.cands_of Ivm.diff_ok
   Updates.urun Updates.u_init Updates.recv Updates.flush Updates.fate_ok
   SchemaDiff.exec SchemaDiff.insert_row SchemaDiff.find_dtab SchemaDiff.default_val
